@@ -1123,6 +1123,461 @@ print(json.dumps(res))
             if kw not in str(e).lower():
                 c.violation("binary-warning-live:" + en, "%s raises %r, expected the message of %s" % (what, str(e)[:100], en), {"action": what, "error": str(e)})
 
+    # ================================================================ LIVE OBJECTS: the cross-cutting dimensions
+    # (everything above the option sweeps ran on zeroed from_buffer instances; here the same oracle - Python attribute vs raw C
+    #  bytes at the C-side offset - is crossed with live simulations, pointers, histories, special values, restore paths)
+    import collections, math, pickle, copy as _copy
+    dim = collections.Counter()
+    rule.append("live objects: every scalar field of a live Simulation and its integrator sub-objects written A then B (0, -0.0, NaN, inf, negative, "
+                "max, >=2^31) and read at the C offset; particles / var_config / ODE / archive reached through pointers; particle array across realloc; "
+                "structures returned by value checked by meaning; units and hash properties; method arguments persisted in the struct; callbacks "
+                "installed, replaced, cleared and actually invoked; sub-objects across reset_integrator; copy / pickle / archive restore")
+    simcls = classes["Simulation"]
+    SIMST = "reb_simulation"
+
+    def rd(addr, size):
+        return ctypes.string_at(addr, size)
+
+    def enc(kind, v):
+        if kind[0] == "f64":
+            return struct.pack("<d", v)
+        return (int(v) % (1 << (8 * kind[2]))).to_bytes(kind[2], "little")
+
+    def values_for(kind):
+        if kind[0] == "f64":
+            return [1.5, -0.0, float("nan"), float("inf"), 0.0, -2.5e-300, 7.25]
+        n_ = 8 * kind[2]
+        if kind[1]:
+            return [1, -1, 0, -(1 << (n_ - 1)), (1 << (n_ - 1)) - 1, 5]
+        return [1, 0, (1 << n_) - 1, 1 << (n_ - 1), 5]
+
+    def live_violation(st, pyf, what, rep):
+        c.violation(finding_key_for(c, "name", struct=st, py=pyf) if any(
+            x.get("struct") == st and x.get("py") == pyf for e in c.findings for x in e.get("lean_exceptions", [])) else "live-field:%s.%s" % (st, pyf), what, rep)
+
+    def sweep_struct(getobj, cname, base_addr, tag):
+        """getobj() -> the Python object (re-fetched every time); base_addr -> address of the C structure"""
+        st = cm[cname]["struct"]
+        for fld in py["classes"][cname]["members"]:
+            k = fld["kind"]
+            if k[0] not in ("int", "f64"):
+                continue
+            ms_ = corresponding(cs, ref, st, fld["name"], k)
+            if not ms_:
+                continue
+            off_, size_ = ms_[0]["off"], ms_[0]["size"]
+            saved = rd(base_addr + off_, size_)
+            held = getobj()
+            prev = None
+            for i_, v in enumerate(values_for(k)):
+                o_ = held if i_ % 2 else getobj()          # alternately a held reference and a freshly fetched one
+                setattr(o_, fld["name"], v)
+                got = rd(base_addr + off_, size_)
+                dim["live_set_A_then_B_all_fields"] += 1
+                if isinstance(v, float) and (v != v or v in (0.0, float("inf")) or math.copysign(1, v) < 0):
+                    dim["special_values_nan_inf_zero_negzero"] += 1
+                if k[0] == "int" and (v <= 0 or v >= (1 << 31)):
+                    dim["special_values_zero_negative_ge_2^31"] += 1
+                c.count(("live", tag, cname, fld["name"], i_))
+                if got != enc(k, v) and size_ == fld["size"]:
+                    live_violation(st, fld["name"], "live %s: %s.%s = %r (after %r): bytes of struct %s.%s are %s, expected %s" % (tag, cname, fld["name"], v, prev, st, ms_[0]["name"], got.hex(), enc(k, v).hex()),
+                                   {"python": "%s.%s = %r" % (tag, fld["name"], v), "c_member": ms_[0]["name"], "c_offset": off_, "bytes": got.hex()})
+                    break
+                back = getattr(getobj(), fld["name"])
+                if not (back == v or (v != v and back != back)):
+                    live_violation(st, fld["name"], "live %s: %s.%s = %r reads back %r" % (tag, cname, fld["name"], v, back), {"python": "%s.%s" % (tag, fld["name"])})
+                    break
+                prev = v
+            ctypes.memmove(base_addr + off_, saved, size_)
+
+    def absoff(path):
+        """C offset of a member path of struct reb_simulation"""
+        st, tot = SIMST, 0
+        for p_ in path:
+            m_ = cmember(cs, st, p_)
+            tot += m_["off"]
+            if m_["kind"][0] == "struct":
+                st = m_["kind"][1]
+        return tot
+
+    def mksim(n=3, integrator="whfast"):
+        s_ = rebound.Simulation()
+        s_.add(m=1.)
+        for i_ in range(1, n):
+            s_.add(m=1e-3 * i_, a=1. + 0.7 * i_, e=0.05 * i_, inc=0.02 * i_)
+        s_.integrator = integrator
+        s_.dt = 0.01
+        return s_
+
+    # ---- (1) every scalar field of a live simulation and of every integrator sub-object, A then B
+    sim = mksim()
+    sweep_struct(lambda: sim, "Simulation", ctypes.addressof(sim), "sim")
+    for fld in py["classes"]["Simulation"]["members"]:
+        if fld["kind"][0] == "struct" and fld["kind"][1] in cm:
+            ms_ = corresponding(cs, ref, SIMST, fld["name"], fld["kind"])
+            if ms_:
+                sweep_struct((lambda n_=fld["name"]: getattr(sim, n_)), fld["kind"][1], ctypes.addressof(sim) + ms_[0]["off"], "sim." + fld["name"])
+                dim["integrator_subobjects"] += 1
+    del sim
+
+    # ---- (2) objects reached through pointers
+    sim = mksim(4)
+    pm, pcs = cmember(cs, SIMST, "particles"), cs["structs"]["reb_particle"]
+    pptr = lambda s_: int.from_bytes(rd(ctypes.addressof(s_) + pm["off"], 8), "little")
+    for i_ in range(sim.N):
+        sweep_struct((lambda j=i_: sim.particles[j]), "Particle", pptr(sim) + i_ * pcs["size"], "sim.particles[%d]" % i_)
+        dim["pointer_particles"] += 1
+    # particle array across allocation growth: a Particles container kept from before must still address the live array
+    ps = sim.particles
+    old_ptr = pptr(sim)
+    na = cmember(cs, SIMST, "N_allocated")
+    grown = 0
+    for target in (130, 1030 if c.thorough else 260):
+        while sim.N < target:
+            sim.add(m=0., a=3. + 0.01 * sim.N)
+        grown += int(pptr(sim) != old_ptr)
+        for j in (0, 1, sim.N - 1):
+            val = 1234.5 + j + target
+            ps[j].x = val
+            got = struct.unpack("<d", rd(pptr(sim) + j * pcs["size"] + cmember(cs, "reb_particle", "x")["off"], 8))[0]
+            dim["array_realloc_container_kept"] += 1
+            c.count(("realloc", target, j))
+            if got != val:
+                c.violation("stale-particles-container", "`ps = sim.particles` kept across add() up to N=%d: ps[%d].x = %r is not in the live C array (C has %r)" % (target, j, val, got),
+                            {"python": "ps = sim.particles; add particles until N=%d; ps[%d].x = %r" % (target, j, val), "c_value": got})
+        nalloc = int.from_bytes(rd(ctypes.addressof(sim) + na["off"], na["size"]), "little")
+        if sim.N_allocated != nalloc or nalloc < sim.N or sim.N != int.from_bytes(rd(ctypes.addressof(sim) + cmember(cs, SIMST, "N")["off"], 4), "little"):
+            c.violation("live-field:reb_simulation.N_allocated", "after growth Python N/N_allocated = %d/%d, C bytes say N_allocated=%d" % (sim.N, sim.N_allocated, nalloc), {})
+    c.cov["particle_array_moved"] = grown
+    del ps, sim
+    # variational configurations
+    sim = mksim(3)
+    v1 = sim.add_variation()
+    v1b = sim.add_variation(testparticle=2)
+    v2 = sim.add_variation(order=2, first_order=v1)
+    vm, vcs = cmember(cs, SIMST, "var_config"), cs["structs"]["reb_variational_configuration"]
+    vptr = int.from_bytes(rd(ctypes.addressof(sim) + vm["off"], 8), "little")
+    nvc = int.from_bytes(rd(ctypes.addressof(sim) + cmember(cs, SIMST, "N_var_config")["off"], 4), "little")
+    if nvc != 3 or sim.N_var_config != 3:
+        c.violation("live-field:reb_simulation.N_var_config", "three variations added: Python N_var_config=%r, C bytes %d" % (sim.N_var_config, nvc), {})
+    for i_, vv in enumerate((v1, v1b, v2)):
+        for mname in ("order", "index", "testparticle", "index_1st_order_a"):
+            m_ = cmember(cs, "reb_variational_configuration", mname)
+            raw_ = int.from_bytes(rd(vptr + i_ * vcs["size"] + m_["off"], m_["size"]), "little", signed=True)
+            dim["pointer_var_config"] += 1
+            c.count(("varcfg", i_, mname))
+            if getattr(sim.var_config[i_], mname) != raw_ or getattr(vv, mname) != raw_:
+                c.violation("live-field:reb_variational_configuration." + mname, "var_config[%d].%s: Python %r / returned Variation %r, C bytes %d" % (i_, mname, getattr(sim.var_config[i_], mname), getattr(vv, mname), raw_), {})
+    if (v1.order, v2.order, v1b.testparticle) != (1, 2, 2):
+        c.violation("live-field:reb_variational_configuration.order", "add_variation arguments are not what the C entries hold: %r" % ((v1.order, v2.order, v1b.testparticle),), {})
+    sweep_struct(lambda: sim.var_config[1], "Variation", vptr + vcs["size"], "sim.var_config[1]")
+    del sim
+    # ODE
+    sim = mksim(2, "bs")
+    ode = sim.create_ode(length=4, needs_nbody=False)
+    oa = ctypes.addressof(ode)
+    optr = int.from_bytes(rd(int.from_bytes(rd(ctypes.addressof(sim) + cmember(cs, SIMST, "odes")["off"], 8), "little"), 8), "little")
+    dim["pointer_ode"] += 1
+    if optr != oa or int.from_bytes(rd(ctypes.addressof(sim) + cmember(cs, SIMST, "N_odes")["off"], 4), "little") != 1:
+        c.violation("live-field:reb_simulation.odes", "create_ode(): sim.odes[0] = %#x, returned object at %#x" % (optr, oa), {})
+    if int.from_bytes(rd(oa + cmember(cs, "reb_ode", "length")["off"], 4), "little") != 4 or ode.length != 4 or ode.needs_nbody != 0:
+        c.violation("live-field:reb_ode.length", "create_ode(length=4): C bytes / Python disagree", {})
+    yptr = int.from_bytes(rd(oa + cmember(cs, "reb_ode", "y")["off"], 8), "little")
+    for j in range(4):
+        ode.y[j] = 10.5 + j
+        dim["pointer_ode"] += 1
+        c.count(("ode-y", j))
+        if struct.unpack("<d", rd(yptr + 8 * j, 8))[0] != 10.5 + j:
+            c.violation("live-field:reb_ode.y", "ode.y[%d] written through Python is not at the C pointer" % j, {})
+    sweep_struct(lambda: ode, "ODE", oa, "ode")
+    del ode, sim
+
+    # ---- (3) structures returned by value, checked by meaning (names <-> quantities)
+    sim = rebound.Simulation()
+    sim.add(m=1.)
+    el = dict(a=2.5, e=0.3, inc=0.4, Omega=0.5, omega=0.6, f=0.7)
+    sim.add(m=1e-3, **el)
+    o = sim.particles[1].orbit(primary=sim.particles[0])
+    for k_, v in el.items():
+        dim["by_value_struct_returns"] += 1
+        c.count(("orbit", k_))
+        if not abs(getattr(o, k_) - v) < 1e-9:
+            c.violation("by-value:Orbit." + k_, "particle added with %s=%r, orbit().%s = %r" % (k_, v, k_, getattr(o, k_)), {"elements": el})
+    mu = sim.G * (1 + 1e-3)
+    for k_, want in (("P", 2 * math.pi * math.sqrt(2.5 ** 3 / mu)), ("n", math.sqrt(mu / 2.5 ** 3)), ("pomega", 1.1), ("d", 2.5 * (1 - 0.09) / (1 + 0.3 * math.cos(0.7)))):
+        dim["by_value_struct_returns"] += 1
+        if not abs(getattr(o, k_) - want) < 1e-9 * max(1, abs(want)):
+            c.violation("by-value:Orbit." + k_, "orbit().%s = %r, expected %r" % (k_, getattr(o, k_), want), {})
+    sim.add(m=2e-3, a=4., inc=1.0, Omega=2.0)
+    Lx = math.fsum(p.m * (p.y * p.vz - p.z * p.vy) for p in sim.particles)
+    Ly = math.fsum(p.m * (p.z * p.vx - p.x * p.vz) for p in sim.particles)
+    Lz = math.fsum(p.m * (p.x * p.vy - p.y * p.vx) for p in sim.particles)
+    Lv = sim.angular_momentum()
+    for got, want, nm_ in zip(Lv, (Lx, Ly, Lz), "xyz"):
+        dim["by_value_struct_returns"] += 1
+        if not abs(got - want) < 1e-12:
+            c.violation("by-value:Vec3d." + nm_, "angular_momentum()[%s] = %r, expected %r" % (nm_, got, want), {})
+    com = sim.com()
+    M = math.fsum(p.m for p in sim.particles)
+    for attr in ("x", "y", "z", "vx", "vy", "vz"):
+        dim["by_value_struct_returns"] += 1
+        want = math.fsum(p.m * getattr(p, attr) for p in sim.particles) / M
+        if not abs(getattr(com, attr) - want) < 1e-12 or abs(com.m - M) > 1e-15:
+            c.violation("by-value:Particle." + attr, "com().%s = %r, expected %r" % (attr, getattr(com, attr), want), {})
+    ax, ang = (0.1, -0.2, 0.97), 0.7
+    nrm = math.sqrt(sum(t * t for t in ax))
+    r_ = rebound.Rotation(angle=ang, axis=list(ax))
+    for attr, want in (("ix", ax[0] / nrm * math.sin(ang / 2)), ("iy", ax[1] / nrm * math.sin(ang / 2)), ("iz", ax[2] / nrm * math.sin(ang / 2)), ("r", math.cos(ang / 2))):
+        dim["by_value_struct_returns"] += 1
+        if not abs(getattr(r_, attr) - want) < 1e-12:
+            c.violation("by-value:Rotation." + attr, "Rotation(angle, axis).%s = %r, expected %r" % (attr, getattr(r_, attr), want), {})
+    ri = r_.inverse()
+    if not all(abs(getattr(ri, a_) + getattr(r_, a_)) < 1e-12 for a_ in ("ix", "iy", "iz")) or abs(ri.r - r_.r) > 1e-12:
+        c.violation("by-value:Rotation.inverse", "inverse() is not the conjugate quaternion", {})
+    del sim
+
+    # ---- (4) properties that are not named options: units <-> python_unit_*, Particle.hash
+    clib.reb_hash.restype = ctypes.c_uint32
+    for seq in ((("AU", "yr", "Msun"), ("m", "s", "kg")), (("m", "s", "kg"), ("AU", "yr2pi", "Mjupiter"))):
+        sim = rebound.Simulation()
+        for un in seq:                   # set A then B on the same simulation
+            sim.units = un
+            want = {"python_unit_l": un[0], "python_unit_t": un[1], "python_unit_m": un[2]}
+            got_u = sim.units
+            dim["property_units"] += 1
+            c.count(("units", un))
+            if (got_u["length"].lower(), got_u["time"].lower(), got_u["mass"].lower()) != tuple(u.lower() for u in un):
+                c.violation("property:units-readback", "sim.units = %r reads back %r" % (un, got_u), {"python": "sim.units = %r; sim.units" % (un,)})
+            for mname, u in want.items():
+                m_ = cmember(cs, SIMST, mname)
+                raw_ = int.from_bytes(rd(ctypes.addressof(sim) + m_["off"], 4), "little")
+                h = clib.reb_hash(ctypes.c_char_p(u.lower().encode()))
+                if raw_ != h:
+                    landed = [x for x in want if int.from_bytes(rd(ctypes.addressof(sim) + cmember(cs, SIMST, x)["off"], 4), "little") == h]
+                    c.violation(finding_key_for(c, "name", struct=SIMST, py=mname), "sim.units = %r: struct reb_simulation.%s holds %#x, hash(%r) = %#x (that hash is in %s)" % (un, mname, raw_, u, h, landed),
+                                {"python": "sim.units = %r" % (un,), "c_member": mname, "bytes": raw_, "expected_hash": h, "hash_found_in": landed})
+        del sim
+    sim = mksim(3)
+    hm = cmember(cs, "reb_particle", "hash")
+    for v, want in (("planet-b", clib.reb_hash(b"planet-b")), (12345, 12345), (0, 0), ("second", clib.reb_hash(b"second")), (4000000000, 4000000000)):
+        sim.particles[1].hash = v
+        raw_ = int.from_bytes(rd(pptr(sim) + pcs["size"] + hm["off"], 4), "little")
+        dim["property_particle_hash"] += 1
+        c.count(("hash", str(v)))
+        if raw_ != want or sim.particles[1].hash.value != want:
+            c.violation("property:Particle.hash", "particles[1].hash = %r: C bytes %d, reads back %r, expected %d" % (v, raw_, sim.particles[1].hash.value, want), {"python": "sim.particles[1].hash = %r" % (v,)})
+    sim.particles[2].xyz = (1.25, -2.5, 3.75)
+    sim.particles[2].vxyz = (-0.5, 0.25, 0.125)
+    for attr, want in zip(("x", "y", "z", "vx", "vy", "vz"), (1.25, -2.5, 3.75, -0.5, 0.25, 0.125)):
+        dim["property_particle_xyz"] += 1
+        if struct.unpack("<d", rd(pptr(sim) + 2 * pcs["size"] + cmember(cs, "reb_particle", attr)["off"], 8))[0] != want:
+            c.violation("property:Particle.xyz", "particles[2].xyz/vxyz: C member %s is not %r" % (attr, want), {})
+    del sim
+
+    # ---- (5) method arguments / defaults persisted in the struct
+    def cint(s_, path, signed=True):
+        m_ = path[-1]
+        st, off_ = SIMST, 0
+        return None
+    for efv, want in ((None, 1), (0, 0), (1, 1), (None, 1), (0, 0)):
+        sim = mksim(2)
+        sim.exact_finish_time = 1 - want            # the previous content must not survive
+        if efv is None:
+            sim.integrate(0.05)
+        else:
+            sim.integrate(0.05, exact_finish_time=efv)
+        raw_ = int.from_bytes(rd(ctypes.addressof(sim) + cmember(cs, SIMST, "exact_finish_time")["off"], 4), "little", signed=True)
+        dim["defaults_persisted_in_struct"] += 1
+        c.count(("eft", str(efv)))
+        if raw_ != want or sim.exact_finish_time != want or (want == 1 and sim.t != 0.05) or (want == 0 and not sim.t >= 0.05):
+            c.violation("persisted-argument:exact_finish_time", "integrate(0.05%s) with the field previously %d: C exact_finish_time = %d (expected %d), t = %r" % ("" if efv is None else ", exact_finish_time=%d" % efv, 1 - want, raw_, want, sim.t),
+                        {"python": "sim.exact_finish_time = %d; sim.integrate(0.05%s)" % (1 - want, "" if efv is None else ", exact_finish_time=%d" % efv), "c_value": raw_})
+        del sim
+    for seed in (7, 0, 4000000001):
+        sim = mksim(2)
+        sim.init_megno(seed=seed)
+        raw_ = int.from_bytes(rd(ctypes.addressof(sim) + cmember(cs, SIMST, "rand_seed")["off"], 4), "little")
+        dim["defaults_persisted_in_struct"] += 1
+        c.count(("seed", seed))
+        if raw_ != seed or sim.rand_seed != seed:
+            c.violation("persisted-argument:init_megno.seed", "init_megno(seed=%d): C rand_seed = %d, Python reads %r" % (seed, raw_, sim.rand_seed), {"python": "sim.init_megno(seed=%d)" % seed})
+        del sim
+    sim = rebound.Simulation()
+    sim.configure_box(6.5, 2, 3, 4)
+    for mname, want in (("N_root_x", 2), ("N_root_y", 3), ("N_root_z", 4), ("N_root", 24)):
+        dim["defaults_persisted_in_struct"] += 1
+        raw_ = int.from_bytes(rd(ctypes.addressof(sim) + cmember(cs, SIMST, mname)["off"], 4), "little", signed=True)
+        if raw_ != want or getattr(sim, mname) != want:
+            c.violation("persisted-argument:configure_box." + mname, "configure_box(6.5, 2, 3, 4): C %s = %d, Python %r" % (mname, raw_, getattr(sim, mname)), {})
+    rs = struct.unpack("<d", rd(ctypes.addressof(sim) + cmember(cs, SIMST, "root_size")["off"], 8))[0]
+    bx = struct.unpack("<ddd", rd(ctypes.addressof(sim) + cmember(cs, SIMST, "boxsize")["off"], 24))
+    if rs != 6.5 or bx != (13.0, 19.5, 26.0) or (sim.boxsize.x, sim.boxsize.y, sim.boxsize.z) != bx:
+        c.violation("persisted-argument:configure_box.boxsize", "configure_box(6.5, 2, 3, 4): root_size %r boxsize %r" % (rs, bx), {})
+    del sim
+    afn = os.path.join(work, "c18_auto.bin")
+    for kwarg, mname, val, fmt in (("interval", "simulationarchive_auto_interval", 2.5, "<d"), ("walltime", "simulationarchive_auto_walltime", 3.5, "<d"), ("step", "simulationarchive_auto_step", 7, "<Q")):
+        sim = mksim(2)
+        sim.save_to_file(afn, delete_file=True, **{kwarg: val})
+        m_ = cmember(cs, SIMST, mname)
+        raw_ = struct.unpack(fmt, rd(ctypes.addressof(sim) + m_["off"], 8))[0]
+        dim["defaults_persisted_in_struct"] += 1
+        c.count(("autosave", kwarg))
+        if raw_ != val or getattr(sim, mname) != val:
+            c.violation("persisted-argument:save_to_file." + kwarg, "save_to_file(%s=%r): C %s = %r, Python %r" % (kwarg, val, mname, raw_, getattr(sim, mname)), {})
+        del sim
+
+    # ---- (6) callbacks: installed, replaced, cleared with 0, and actually invoked by C
+    cbprops = [p_ for p_ in ("additional_forces", "pre_timestep_modifications", "post_timestep_modifications", "heartbeat",
+                             "coefficient_of_restitution", "collision_resolve", "free_particle_ap") if isinstance(getattr(simcls, p_, None), property)]
+    for p_ in cbprops:
+        sim = mksim(2)
+        m_ = cmember(cs, SIMST, p_)
+        ptr = lambda: int.from_bytes(rd(ctypes.addressof(sim) + m_["off"], 8), "little")
+        before = ptr()
+        f1, f2 = (lambda *a: 0), (lambda *a: 0)
+        setattr(sim, p_, f1)
+        a1 = ptr()
+        setattr(sim, p_, f2)
+        a2 = ptr()
+        dim["callbacks_install_replace_clear"] += 1
+        c.count(("cb", p_))
+        field_v = ctypes.cast(getattr(sim, "_" + p_), ctypes.c_void_p).value
+        if not a1 or not a2 or a1 == a2 or a2 != field_v:
+            c.violation("callback:" + p_, "sim.%s = f1 then f2: C member holds %#x then %#x, the ctypes field says %#x" % (p_, a1, a2, field_v or 0), {"python": "sim.%s = f1; sim.%s = f2" % (p_, p_)})
+        try:
+            setattr(sim, p_, 0)
+            if ptr() != 0:
+                c.violation("callback-clear:" + p_, "sim.%s = 0 leaves %#x in the C member" % (p_, ptr()), {"python": "sim.%s = f; sim.%s = 0" % (p_, p_)})
+            dim["callbacks_install_replace_clear"] += 1
+        except Exception as e:
+            c.cov.setdefault("callback_clear_not_supported", {})[p_] = "%s" % type(e).__name__
+        del sim
+    sim = mksim(3)
+    sim.integrator = "leapfrog"
+    calls = collections.Counter()
+    sim.additional_forces = lambda s_: calls.update(["additional_forces"])
+    sim.pre_timestep_modifications = lambda s_: calls.update(["pre_timestep_modifications"])
+    sim.post_timestep_modifications = lambda s_: calls.update(["post_timestep_modifications"])
+    sim.heartbeat = lambda s_: calls.update(["heartbeat"])
+    sim.steps(3)
+    for p_ in ("additional_forces", "pre_timestep_modifications", "post_timestep_modifications", "heartbeat"):
+        dim["callbacks_invoked_by_C"] += 1
+        c.count(("cb-invoked", p_))
+        if calls[p_] < 3:
+            c.violation("callback-invoked:" + p_, "sim.%s installed from Python was called %d times in 3 steps" % (p_, calls[p_]), {"python": "sim.%s = f; sim.steps(3)" % p_, "calls": dict(calls)})
+    sim.heartbeat = 0
+    n0 = calls["heartbeat"]
+    sim.steps(2)
+    if calls["heartbeat"] != n0:
+        c.violation("callback-clear:heartbeat", "heartbeat cleared with 0 is still called", {})
+    del sim
+    sim = mksim(2)
+    sim.integrator = "mercurius"
+    lcalls = []
+    sim.ri_mercurius.L = lambda s_, d_, dc_: (lcalls.append(1), 1.0)[1]
+    sim.steps(2)
+    dim["callbacks_invoked_by_C"] += 1
+    if not lcalls:
+        c.violation("callback-invoked:ri_mercurius.L", "a Python switching function installed in ri_mercurius.L is never called", {})
+    del sim
+
+    # ---- (7) integrator sub-objects held across reset_integrator / integrator switches
+    sim = mksim(3, "whfast")
+    w, ia = sim.ri_whfast, sim.ri_ias15
+    w.corrector = 11
+    w.kernel = "lazy"
+    sim.steps(2)
+    sim.reset_integrator()
+    for obj_, cname_, path_, attr, newv in ((w, "IntegratorWHFast", ["ri_whfast"], "safe_mode", 0), (w, "IntegratorWHFast", ["ri_whfast"], "corrector", 5),
+                                            (ia, "IntegratorIAS15", ["ri_ias15"], "epsilon", 1.25e-7), (ia, "IntegratorIAS15", ["ri_ias15"], "adaptive_mode", 1)):
+        m_ = cmember(cs, cm[cname_]["struct"], attr)
+        addr = ctypes.addressof(sim) + absoff(path_) + m_["off"]
+        k = m_["kind"]
+        cur = rd(addr, m_["size"])
+        dim["subobject_across_reset_integrator"] += 1
+        c.count(("reset", cname_, attr))
+        if enc(k, getattr(obj_, attr)) != cur:
+            c.violation("subobject-after-reset:%s.%s" % (cname_, attr), "held %s.%s reads %r after reset_integrator(), C bytes %s" % (path_[0], attr, getattr(obj_, attr), cur.hex()), {})
+        setattr(obj_, attr, newv)
+        if rd(addr, m_["size"]) != enc(k, newv):
+            c.violation("subobject-after-reset:%s.%s" % (cname_, attr), "writing held %s.%s after reset_integrator() does not reach the C member" % (path_[0], attr), {})
+    sim.integrator = "ias15"
+    sim.steps(1)
+    sim.integrator = "whfast"
+    if w.kernel != "lazy" or int.from_bytes(rd(ctypes.addressof(sim) + absoff(["ri_whfast", "kernel"]), 4), "little") != 3:
+        c.violation("subobject-after-reset:IntegratorWHFast.kernel", "kernel 'lazy' set before integrator switches reads %r" % (w.kernel,), {})
+    del w, ia, sim
+
+    # ---- (8) copy / deepcopy / pickle / archive restore: the new Python object mirrors its own C bytes, names survive
+    src = mksim(3, "whfast")
+    src.ri_whfast.kernel, src.ri_whfast.coordinates, src.ri_whfast.corrector = "lazy", "whds", 7
+    src.ri_saba.type, src.ri_eos.phi0, src.ri_eos.phi1 = "cl4", "lf8", "pmlf4"
+    src.gravity, src.collision, src.boundary = "compensated", "direct", "open"
+    src.configure_box(50.)
+    src.units = ("AU", "yr", "Msun")
+    src.N_active, src.softening, src.exit_max_distance, src.rand_seed = 2, 0.125, 77.5, 4000000002
+    src.particles[1].hash = "b"
+    src.steps(2)
+    names = lambda s_: (s_.integrator, s_.gravity, s_.collision, s_.boundary, s_.ri_whfast.kernel, s_.ri_whfast.coordinates, s_.ri_whfast.corrector,
+                        s_.ri_saba.type, s_.ri_eos.phi0, s_.ri_eos.phi1, tuple(sorted(s_.units.items())), s_.N_active, s_.softening, s_.exit_max_distance,
+                        s_.rand_seed, s_.particles[1].hash.value, s_.t, s_.N)
+    rfile = os.path.join(work, "c18_restore.bin")
+    src.save_to_file(rfile, delete_file=True)
+    t_saved = [src.t]
+    src.steps(3)
+    src.save_to_file(rfile)
+    t_saved.append(src.t)
+    src.steps(1)
+    src.save_to_file(rfile)
+    t_saved.append(src.t)
+    restored = {"copy()": src.copy(), "copy.deepcopy": _copy.deepcopy(src), "pickle": pickle.loads(pickle.dumps(src)),
+                "Simulation(file)": rebound.Simulation(rfile), "Simulationarchive[-1]": rebound.Simulationarchive(rfile)[-1]}
+    for how, s2 in restored.items():
+        dim["restore_copy_pickle_archive"] += 1
+        c.count(("restore", how))
+        if names(s2) != names(src):
+            bad_ = [(a_, b_) for a_, b_ in zip(names(src), names(s2)) if a_ != b_]
+            c.violation("restore-names:" + how, "%s: named options / values differ from the source: %s" % (how, bad_[:4]), {"how": how, "source": names(src), "restored": names(s2)})
+        sweep_struct(lambda s2=s2: s2, "Simulation", ctypes.addressof(s2), how)
+        sweep_struct(lambda s2=s2: s2.ri_whfast, "IntegratorWHFast", ctypes.addressof(s2) + absoff(["ri_whfast"]), how + ".ri_whfast")
+        sweep_struct(lambda s2=s2: s2.particles[2], "Particle", pptr(s2) + 2 * pcs["size"], how + ".particles[2]")
+    # the archive structure itself, after opening a real file
+    sa = rebound.Simulationarchive(rfile)
+    saa = ctypes.addressof(sa)
+    sm = lambda n_: cmember(cs, "reb_simulationarchive", n_)
+    nb = int.from_bytes(rd(saa + sm("nblobs")["off"], 8), "little", signed=True)
+    tptr = int.from_bytes(rd(saa + sm("t")["off"], 8), "little")
+    ts = [struct.unpack("<d", rd(tptr + 8 * i_, 8))[0] for i_ in range(max(nb, 0))]
+    dim["pointer_simulationarchive"] += 1 + len(ts)
+    c.count(("archive",), n=1 + len(ts))
+    if nb != 3 or sa.nblobs != 3 or len(sa) != 3 or ts != t_saved or [sa.t[i_] for i_ in range(3)] != t_saved:
+        c.violation("live-field:reb_simulationarchive.nblobs", "archive with snapshots at %r: C nblobs=%d t=%r, Python nblobs=%r" % (t_saved, nb, ts, sa.nblobs), {})
+    for mname in ("version", "auto_interval", "auto_walltime", "auto_step"):
+        m_ = sm(mname)
+        raw_ = scalar_from_bytes(m_["kind"], rd(saa + m_["off"], m_["size"]))
+        dim["pointer_simulationarchive"] += 1
+        if getattr(sa, mname) != raw_:
+            c.violation("live-field:reb_simulationarchive." + mname, "Simulationarchive.%s = %r, C bytes %r" % (mname, getattr(sa, mname), raw_), {})
+    if [sa[i_].t for i_ in range(3)] != t_saved:
+        c.violation("live-field:reb_simulationarchive.t", "snapshots restore to times %r, saved at %r" % ([sa[i_].t for i_ in range(3)], t_saved), {})
+    del sa, restored, src
+
+    # ---- dimensions covered by the earlier sweeps
+    dim["set_A_then_B_named_options"] = pair_cases
+    dim["set_A_then_B_function_pointer_options"] = fn_pairs
+    dim["composite_shortcut_names"] = comp_cases
+    dim["upper_lower_case_spellings"] = sum(1 for k_ in c._distinct if isinstance(k_, tuple) and k_ and k_[0] == "pair" and k_[-1] == "NAME") + comp_cases // 2
+    dim["value_zero_as_option_integer"] = sum(1 for k_ in c._distinct if isinstance(k_, tuple) and k_ and k_[0] == "pair" and k_[-1] == "int")
+    dim["counters_top_bit_set_all_integer_fields"] = sum(1 for k_ in c._distinct if isinstance(k_, tuple) and len(k_) == 5 and k_[3] in ("w", "r") and k_[4] is True)
+    c.cov["dimensions"] = dict(dim)
+    for need in ("live_set_A_then_B_all_fields", "special_values_nan_inf_zero_negzero", "special_values_zero_negative_ge_2^31", "integrator_subobjects",
+                 "pointer_particles", "array_realloc_container_kept", "pointer_var_config", "pointer_ode", "pointer_simulationarchive", "by_value_struct_returns",
+                 "property_units", "property_particle_hash", "defaults_persisted_in_struct", "callbacks_install_replace_clear", "callbacks_invoked_by_C",
+                 "subobject_across_reset_integrator", "restore_copy_pickle_archive", "set_A_then_B_named_options", "set_A_then_B_function_pointer_options",
+                 "composite_shortcut_names", "upper_lower_case_spellings", "value_zero_as_option_integer", "counters_top_bit_set_all_integer_fields"):
+        if not dim.get(need):
+            c.broken.append("dimension %s not covered" % need)
+
     # ================================================================ correspondence: model verdicts == executed observations
     # (a field lying over a differently named member is a *name* disagreement for the executed sweep, which goes by
     #  name, and may in addition be a *kind* disagreement for the model, which goes by position: compare the unions)
